@@ -50,7 +50,15 @@ RULE = ("seeded histories of 3-14 operations over a weighted alphabet favouring 
         "written again; an earlier version again) with 3 databases: load / fromfile / clear + load / rejected second load, lazy or "
         "read, retrievals store on/off, in-place processing of cached series: listing and data of every database describe the file "
         "as it was when loaded / read; non-trivial = history with at least one successful mutation and "
-        "one rejected operation or cache interaction, or (second family) a multi-series request out of file order; distinct by history")
+        "one rejected operation or cache interaction, or (second family) a multi-series request out of file order; distinct by history; "
+        "eighth round (stream `big`, c08_big.py, oracles only): 4 (quick) / 24 (thorough) histories of 25-40 operations on a database "
+        "loaded from a wide file (31 / 33 / 63 / 65 / 127 / 129 / 255 / 300 series; pkl ts csv dat tda mat) with a second database of "
+        "40-140 series as update source: add (new / duplicate of a name registered now / the new name of a renamed series / a name "
+        "freed by a rename), rename (ok / clash / unknown / ambiguous), clear (one / several keys), update (deep / shallow, 1-33 keys, "
+        "late clash), copy, getm by names / index lists (store on / off), get by index -- aimed at the first / last position and "
+        "positions 31-33, 63-65, 127-129, 255-257; after every operation coherence against a plain list model, rejected operations "
+        "leave keys / objects / parents / indices unchanged, watched positions are retrievable by key and by index with the predicted "
+        "name and data, caching clauses")
 
 # (relative path, names in file order); the extension selects the format.  All are index-addressed formats (the registry model's
 # `indices` register holds record numbers); the name-addressed ones are exercised in the second family, renames included.
@@ -1387,12 +1395,18 @@ def run(chk):
         for fmt in ("h5", "mat", "tdms", "ts", "csv"):
             spec = c01.gen_spec(rng, 7, fmt, k=2, n=4, variant=0)
             rename_unread(spec, c01.write_file(fl.root, spec), chk)
+        # ---- large registries (31 ... 300 series + added + updated ones): histories decided by the clauses alone (c08_big.py) --------
+        from .c08_big import run_big
+        run_big(chk)
     finally:
         fl.close()
 
 
 def replay(rp):
     inp = rp["input"]
+    if inp.get("kind") == "big":
+        from .c08_big import replay_big
+        return replay_big(inp)
     fl = Files()
     try:
         chk = core.Check("C08", "quick", 0)
